@@ -11,6 +11,7 @@ import translate
 PID = "C14"
 OBS = ("conn.timeout_ops", "conn.timeout_transport", "_base_transport_args.timeout_transport", "_base_channel_args.timeout_ops",
        "value held by the transport session (_set_timeout)")
+OBS = OBS + tuple("the OTHER driver sharing the transport (commandeer): " + x for x in OBS)
 OV = [None, "equal", 0, 0.5, 1, 7.5]
 EXCS = [("timeout", True), ("conn", False), ("other", True), ("timeout_close", False)]
 CONSTS = {}       # what the translator extracted (set by run / replay)
@@ -18,15 +19,32 @@ CONSTS = {}       # what the translator extracted (set by run / replay)
 
 # ---------------------------------------------------------------- independent statement of the property (oracle)
 def oracle_step(step):
-    """-> list of (observable name, before, after) that differ; never looks at the model"""
-    return [(OBS[i], b, a) for i, (b, a) in enumerate(zip(step["before"], step["after"])) if not (a == b)
-            and not (i == 4 and not step.get("session_open", True))]       # a closed session holds no timeout
+    """-> list of (observable name, expected, after) that differ; never looks at the model.
+    A per-call operation must leave every observable of the driver it is called on - and of any other driver sharing the
+    transport - as it found it; a reconfiguration through a public setter must change exactly what it names."""
+    want = list(step["before"])
+    if step.get("set") and step["res"] == "-":
+        attr, value = step["set"]
+        if attr == "timeout_ops":
+            want[0] = want[3] = value
+        elif attr == "timeout_transport":
+            want[1] = want[2] = value
+            for i in range(4, len(want), 5):          # the (shared) transport session gets the value pushed
+                if want[i] is not None and step.get("session_open", True):
+                    want[i] = value
+    if step.get("set") and step["res"] != "-":
+        return []       # a setter that raised (non-number; _set_timeout on a closed session, after assigning): no claim of C14
+    # the session value is claimed only for a coherent start (session holds the acting driver's configured value; after
+    # B.commandeer(A) it holds A's) and an open session - the `Coherent` / `PushesOk` hypotheses of restore_full
+    b = step["before"]
+    skip_sess = (not step.get("session_open", True)) or (b[4] is not None and not (b[4] == b[2]))
+    return [(OBS[i], w, a) for i, (w, a) in enumerate(zip(want, step["after"])) if not (a == w) and not (i % 5 == 4 and skip_sess)]
 
 
 def oracle_in_force(spec, step, base_ops):
     """the override is what the channel operations of this call run under (timeout_ops only)"""
     ov = spec.get("ov")
-    if ov is None or ov == "bad" or spec["op"] == "read_callback":
+    if ov is None or ov == "bad" or spec["op"] in ("read_callback", "set"):
         return []
     want = base_ops if ov == "equal" else ov
     return [e for e in step["log"] if e["site"] in ("send_input", "interact", "write", "read_until_input", "send_return", "read")
@@ -114,17 +132,39 @@ def _model_log(case, st, consts):
     return [e for e in st["log"] if e["site"] != "push"]
 
 
-def enc_line(case, steps, consts):
-    steps = [dict(st, log=_model_log(case, st, consts)) for st in steps]
+def segments(case, steps):
+    """maximal runs of per-call operations between the user's reconfigurations: [(ops, steps)]"""
+    out, cur = [], ([], [])
+    for spec, st in zip(case["ops"], steps):
+        if spec["op"] == "set":
+            if cur[0]:
+                out.append(cur)
+            cur = ([], [])
+        else:
+            cur[0].append(spec)
+            cur[1].append(st)
+    if cur[0]:
+        out.append(cur)
+    return out
+
+
+def enc_lines(case, steps, consts):
+    """one model request per segment; the segment starts from the state the real connection is in at that moment (the
+    theorems quantify over every initial state, a reconfiguration just starts a new run)"""
+    lines = []
     stack = "a" if case["stack"] == "async" else "s"
     net = case["driver"] != "generic"
-    ops = ";".join(enc_op(s, st, net, consts, case["stack"]) for s, st in zip(case["ops"], steps))
-    tape = ",".join(f"{e['exc'] or '-'}/{int(e['flag'])}" for st in steps for e in st["log"]) or "."
-    sess = str(milli(case["base"][1])) if case.get("push") else "x"
     shape = "t"
     if case.get("gap") is not None:       # the tree's shape + "an exception may arrive between the channel's swap and its try"
         shape = "".join("1" if x else "0" for x in consts["shape"][case["stack"]]) + "1"
-    return f"{stack} {shape} {milli(case['base'][0])} {milli(case['base'][1])} {sess} {ops} {tape}"
+    for ops, sts in segments(case, steps):
+        sts = [dict(st, log=_model_log(case, st, consts)) for st in sts]
+        enc = ";".join(enc_op(s, st, net, consts, case["stack"]) for s, st in zip(ops, sts))
+        tape = ",".join(f"{e['exc'] or '-'}/{int(e['flag'])}" for st in sts for e in st["log"]) or "."
+        b = sts[0]["before"]
+        sess = "x" if b[4] is None else str(milli(b[4]))
+        lines.append(f"{stack} {shape} {milli(b[3])} {milli(b[2])} {sess} {enc} {tape}")
+    return lines
 
 
 def enc_real(steps, case=None, consts=None):
@@ -262,6 +302,9 @@ def gen_cases(ck, tier, run_one):
         for s in ops:
             if s["op"] == "read_callback" and s.get("rt") == "bad":
                 s["rt"] = 1
+        if rng.random() < 0.3:           # the user reconfigures the connection between two calls
+            attr, val = rng.choice(SETS)
+            ops.insert(rng.randint(1, len(ops) - 1), {"op": "set", "attr": attr, "value": val})
         faults = []
         for _ in range(rng.choice([0, 1, 1, 2])):
             exc, soft = rng.choice(EXCS)
@@ -296,7 +339,66 @@ def gen_cases(ck, tier, run_one):
                          (2, [{"op": "send_and_read", "rd": 0.5}, {"op": "send_and_read", "ov": 1, "rd": 7.5}, {"op": "send_and_read", "rd": "omit"}]),
                          (0, [{"op": "send_and_read", "ov": 3, "rd": 1.5}])):
             cases.append(mk(drv, "sync", ops, push=(drv == "iosxe"), gap=gap))
+    cases += history_cases(rng, ck.seed, stacks, tier)
     return cases + timer_cases()
+
+
+SETS = [("timeout_transport", 60), ("timeout_transport", 0), ("timeout_transport", 2.5), ("timeout_ops", 60), ("timeout_ops", 0.5),
+        ("timeout_socket", 5)]
+
+
+def small_ops():
+    P = {"contains": "r1#", "complete": True, "name": "P"}
+    return [{"op": "send_and_read", "rd": "omit"}, {"op": "send_and_read", "rd": 2, "ov": 1}, {"op": "send_and_read", "rd": 0},
+            with_override(rcb_templates()[0], 4.5), {"op": "read_callback", "init": True, "rt": "omit", "cbs": [P]},
+            {"op": "send_command", "ov": 0.5}, {"op": "send_interactive", "ov": 7.5}]
+
+
+def history_cases(rng, seed, stacks, tier):
+    """multi-step histories around the per-call overrides:
+    (7) the user reconfigures the connection through the public setters (timeout_ops / timeout_transport / timeout_socket)
+        BETWEEN per-call-override operations: every (operation, setter, operation) triple of a reduced operation set, every
+        second one with an injected failure in the last operation;
+    (8) B.commandeer(A) with different configured timeouts, then every operation template on B and on A, every override
+        value in rotation, five outcomes; and short mixed sequences on both drivers.  Observed: both drivers."""
+    out = []
+    small = small_ops()
+    n = 0
+    for drv in ("generic", "iosxe"):
+        for stack in stacks:
+            for a in small:
+                for attr, val in SETS:
+                    for b in small:
+                        n += 1
+                        faults = []
+                        if n % 2:
+                            exc, soft = EXCS[n % 3]
+                            faults = [{"at_read": 3 + n % 7, "exc": exc, "soft": soft}]
+                        out.append(mk(drv, stack, [a, {"op": "set", "attr": attr, "value": val}, b], faults, push=bool(n % 3 == 0)))
+    outcomes = [[], [{"at_read": 1, "exc": "timeout", "soft": True}], [{"at_read": 2, "exc": "conn", "soft": False}],
+                [{"at_read": 1, "exc": "other", "soft": True}], [{"at_read": 3, "exc": "timeout_close", "soft": False}]]
+    for stack in stacks:
+        for drv_a, drv_b in (("generic", "generic"), ("generic", "iosxe"), ("iosxe", "generic")):
+            for on, drv in (("B", drv_b), ("A", drv_a)):
+                for i, tpl in enumerate(templates(drv)):
+                    spec = dict(with_override(tpl, OV[(i + seed) % len(OV)]), on=on)
+                    for j, faults in enumerate(outcomes if tier == "thorough" or on == "B" else outcomes[:2]):
+                        out.append(mk(drv_a, stack, [spec], faults, push=bool((i + j) % 2), base=(30, 10),
+                                      commandeer={"driver": drv_b, "base": [15, 30]}))
+    for _ in range(150 if tier == "quick" else 2000):
+        drv_a, drv_b = rng.choice([("generic", "generic"), ("generic", "iosxe")])
+        ops = []
+        for _ in range(rng.choice([2, 3])):
+            on = rng.choice(["A", "B", "B"])
+            if rng.random() < 0.25:
+                attr, val = rng.choice(SETS)
+                ops.append({"op": "set", "attr": attr, "value": val, "on": on})
+            ops.append(dict(with_override(rng.choice(small), rng.choice(OV)), on=on))
+        exc, soft = rng.choice(EXCS)
+        out.append(mk(drv_a, rng.choice(stacks), ops, [{"at_read": rng.randint(1, 9), "exc": exc, "soft": soft}] if rng.random() < 0.5 else [],
+                      push=rng.random() < 0.5, base=rng.choice([(30, 10), (30, 0), (0, 7)]),
+                      commandeer={"driver": drv_b, "base": rng.choice([[15, 30], [30, 10], [0, 0]])}))
+    return out
 
 
 def signal_sweep(n=500):
@@ -394,6 +496,8 @@ def run_real(cases):
 
 
 def ov_class(spec):
+    if spec["op"] == "set":
+        return "none"
     v = spec.get("rt", "omit") if spec["op"] == "read_callback" else spec.get("ov")
     if v is None or v == "omit":
         return "none"
@@ -402,7 +506,7 @@ def ov_class(spec):
     return "zero" if v == 0 else ("fractional" if v != int(v) else "integer")
 
 
-def evaluate(ck, case, steps, consts, mline=None, count=True):
+def evaluate(ck, case, steps, consts, mlines=None, count=True):
     """oracle + (if mline) correspondence for one executed case"""
     rc = resolve(case)
     swapped = False
@@ -411,8 +515,10 @@ def evaluate(ck, case, steps, consts, mline=None, count=True):
         vc = {"case": case, "step": idx, "op": spec, "result": st["exc_repr"] or "returned", "diff": diff, "escape": st["escape"],
               "before": st["before"], "after": st["after"]}
         if diff:
-            ck.violation(vc, f"{spec['op']} ended ({st['exc_repr'] or 'returned'}) and left " +
-                         "; ".join(f"{n}: {b!r} -> {a!r}" for n, b, a in diff), matcher)
+            what = (f"conn.{spec['attr']} = {spec['value']!r}" if spec["op"] == "set" else spec["op"]) + \
+                (f" on driver {st.get('on')} after B.commandeer(A)" if case.get("commandeer") else "")
+            ck.violation(vc, f"{what} ended ({st['exc_repr'] or 'returned'}) and left " +
+                         "; ".join(f"{n}: expected {b!r}, is {a!r}" for n, b, a in diff), matcher)
         nf = oracle_in_force(spec, st, rc["base"][0])
         if nf:
             ck.violation(dict(vc, not_in_force=nf[:3]), f"{spec['op']}: timeout_ops override {spec.get('ov')!r} not in force at {nf[0]['site']}", None)
@@ -430,17 +536,19 @@ def evaluate(ck, case, steps, consts, mline=None, count=True):
                 ck.dist[f"raised-at={st['log'][-1]['site']}"] += 1
     if count:
         key = json.dumps(case, sort_keys=True)
-        ck.case(key, nontrivial=swapped, sample={k: case[k] for k in ("driver", "stack", "push", "base", "ops", "faults")},
+        ck.case(key, nontrivial=swapped, sample={k: case[k] for k in ("driver", "stack", "push", "base", "ops", "faults", "commandeer") if k in case},
                 tags=(f"stack={case['stack']}", f"driver={case['driver']}", f"ncalls={len(case['ops'])}", f"nfaults={len(case['faults'])}",
-                      "session-push" if case.get("push") else "no-session", "timer" if case.get("timer") else "scripted"))
-    if mline is not None:
-        real = enc_real(steps, rc, consts)
+                      "session-push" if case.get("push") else "no-session", "timer" if case.get("timer") else "scripted",
+                      "history=commandeer" if case.get("commandeer") else ("history=reconfigured" if any(o["op"] == "set" for o in case["ops"]) else "history=plain")))
+    if mlines is not None:
+        real = [enc_real(sts, rc, consts) for _, sts in segments(rc, steps)]
+        mline = mlines
         # a REAL timer of the decorators expired during a scripted case (only under extreme machine load): the call ends in
         # ScrapliTimeout although no call site raised one (SIGALRM between two sites / asyncio cancellation converted by
         # timeout_wrapper).  The oracle above still applies; the trace is not compared.
         artefact = any(st["res"] == "t" and not (st["log"] and st["log"][-1]["exc"] == "t") for st in steps)
         if real == mline:
-            ck.traces_validated += 1
+            ck.traces_validated += 1 if real else 0
         elif artefact:
             ck.extra["advisory_timer_artefacts"] = ck.extra.get("advisory_timer_artefacts", 0) + 1
         else:
@@ -456,7 +564,9 @@ def run(tier, seed):
                "override values {None, equal, 0, 0.5, 1, 7.5, non-number} x an outcome injected at EVERY transport read and write "
                "index of the call (ScrapliTimeout, ScrapliConnectionError, a foreign exception) + failed commands, privilege "
                "errors, stop_on_failed aborts; plus real-timer cases (timeout_ops expiring during send_and_read/read_callback). "
-               "Single calls are enumerated, sequences are drawn from the PRNG. Observed before/after each call: conn.timeout_ops, "
+               "Multi-step histories: the user reconfigures timeout_ops / timeout_transport / timeout_socket through the public setters "
+               "between calls (all operation-setter-operation triples of a reduced set); B.commandeer(A) with different configured "
+               "timeouts, then every template on B and on A (both drivers observed). Single calls are enumerated, sequences are drawn from the PRNG. Observed before/after each call: conn.timeout_ops, "
                "conn.timeout_transport, both *_args attributes, the value held by a transport session (_set_timeout). "
                "Non-trivial = a timeout was actually different from the configured one at some call site; distinct by the full case.")
     ck.trusted = ["Lean 4.33.0 kernel; axioms of every theorem audited ⊆ {propext, Classical.choice, Quot.sound}",
@@ -531,17 +641,19 @@ def run(tier, seed):
     results = run_real(cases)
     phase("real code")
     # 5 model (one batch)
-    lines, idxs = [], []
+    lines, spans = [], {}
     if consts is not None:
         for i, (c, st) in enumerate(zip(cases, results)):
-            if isinstance(st, tuple) or c.get("timer"):
-                continue
-            lines.append(enc_line(resolve(c), st, consts))
-            idxs.append(i)
+            if isinstance(st, tuple) or c.get("timer") or c.get("commandeer"):
+                continue            # (two drivers on one transport have two args objects: oracle only)
+            ls = enc_lines(resolve(c), st, consts)
+            spans[i] = (len(lines), len(lines) + len(ls))
+            lines += ls
     mout = {}
     if lines:
         try:
-            mout = dict(zip(idxs, run_model("C14", lines)))
+            outs = run_model("C14", lines)
+            mout = {i: outs[a:b] for i, (a, b) in spans.items()}
         except Exception as e:
             ck.proof_broken("model driver Drv/C14.lean", repr(e))
     phase("model")
@@ -568,6 +680,7 @@ def run(tier, seed):
                 exc, soft = ck.rng.choice(EXCS)
                 extra.append(mk(drv, ck.rng.choice(["sync", "async"]), ops, [{ck.rng.choice(["at_read", "at_write"]): ck.rng.randint(1, 12), "exc": exc, "soft": soft}],
                                 push=ck.rng.random() < 0.5))
+            extra += history_cases(ck.rng, ck.rng.randint(0, 5), ["sync", "async"], "quick")[::3]
             for c, st in zip(extra, run_real(extra)):
                 if not isinstance(st, tuple):
                     evaluate(ck, c, st, consts, None)
